@@ -17,7 +17,16 @@ Proof. rewrite !Rltb_iff. intros H. destruct (Rlt_dec a b); [left; assumption | 
 (* ---------------------------------------------------------------- reading the generated definitions *)
 Lemma out_of_bounds_iff x mn mx : nm_out_of_bounds x mn mx = true <-> (x > mx \/ x < mn).
 Proof.
-  unfold nm_out_of_bounds. destruct (Rgt_dec x mx), (Rlt_dec x mn); cbn; split; intros H; try reflexivity; try discriminate; auto; destruct H; contradiction.
+  (* whatever the syntactic form of the bounds test (`x > max || x < min`, or the NaN-safe `!(x >= min && x <= max)`) *)
+  unfold nm_out_of_bounds.
+  repeat match goal with
+         | |- context [Rgt_dec ?a ?b] => destruct (Rgt_dec a b)
+         | |- context [Rge_dec ?a ?b] => destruct (Rge_dec a b)
+         | |- context [Rlt_dec ?a ?b] => destruct (Rlt_dec a b)
+         | |- context [Rle_dec ?a ?b] => destruct (Rle_dec a b)
+         end; cbn;
+  repeat match goal with |- context [bool_dec ?a ?b] => destruct (bool_dec a b) end;
+  split; intros H; try reflexivity; try discriminate; try congruence; try lra; exfalso; lra.
 Qed.
 Lemma in_bounds_iff x mn mx : nm_out_of_bounds x mn mx = false <-> (mn <= x <= mx).
 Proof.
